@@ -98,6 +98,14 @@ func (g *sg) tree(d int) val.V {
 		}
 		return val.V{K: val.Vec, L: xs}
 	case 4:
+		if g.pick("meta", 2) == 0 {
+			// the ^ reader macro: metadata and annotated form may both hold placeholders
+			meta := g.tree(d - 1)
+			if g.pick("metamap", 2) == 0 {
+				meta = val.M(map[string]val.V{val.KwMark + "doc": g.ph(), val.KwMark + "n": val.I(1)})
+			}
+			return val.L(val.Y("with-meta"), g.tree(d-1), meta)
+		}
 		return val.L(val.Y("quote"), g.tree(d-1))
 	case 5: // map literal: placeholder values; placeholder keys only for string-valued names
 		m := map[string]val.V{}
@@ -130,6 +138,12 @@ func tokens(v val.V, short bool) []gen.Tok {
 	w = func(v val.V) {
 		switch v.K {
 		case val.List, val.Vec:
+			if v.K == val.List && len(v.L) == 3 && v.L[0].K == val.Sym && v.L[0].S == "with-meta" {
+				out = append(out, gen.Tok{Text: "^", Macro: true})
+				w(v.L[2])
+				w(v.L[1])
+				return
+			}
 			if short && v.K == val.List && len(v.L) == 2 && v.L[0].K == val.Sym && v.L[0].S == "quote" {
 				out = append(out, gen.Tok{Text: "'", Macro: true})
 				w(v.L[1])
@@ -206,7 +220,14 @@ func genCase(t *rapid.T) Case {
 			c.Values[n] = v
 			continue
 		}
-		switch rapid.IntRange(0, 5).Draw(t, "vkind") {
+		switch rapid.IntRange(0, 6).Draw(t, "vkind") {
+		case 6:
+			// a keyword whose name need not be a keyword token (spaces, superscripts, fractions, brackets …)
+			name := gen.Str(t, "vkwname", gen.Opts{Str: gen.StrHot, NoKwMark: true, NoNUL: true})
+			v = val.K(name)
+			if rapid.Bool().Draw(t, "vkwnest") {
+				v = val.Vc(val.I(1), val.M(map[string]val.V{val.KwMark + "unit": v}))
+			}
 		case 0, 1:
 			v = val.S(gen.Str(t, "vstr", valOpts))
 		case 2:
